@@ -23,6 +23,7 @@ type Ty struct {
 	Params []*Ty     `json:"params,omitempty"` // func
 	Meths  []string  `json:"meths,omitempty"`  // unnamed interface
 	TArgs  []*Ty     `json:"targs,omitempty"`  // generic instantiation
+	Embeds []*Ty     `json:"embeds,omitempty"` // interface: embedded interfaces
 }
 
 // FieldT is a struct field.
